@@ -64,7 +64,7 @@ type Case struct {
 	Beh    string  `json:"beh,omitempty"` // ok fail0 failhalf shorthalf short0 over
 	// c
 	Calls []Call `json:"calls,omitempty"`
-	// f: 0 /dev/null 1 stdout 2 stderr 3 file 4 failing file 5 no directory
+	// f: 0 /dev/null 1 stdout 2 stderr 3 file 4 failing file 5 no directory 6/7 stdout/stderr on /dev/full 8/9 stdout/stderr closed
 	FKind int `json:"fkind,omitempty"`
 	// h (ms; -1 = never; ctx 0 = already done)
 	Timeout int    `json:"timeout,omitempty"`
@@ -354,14 +354,29 @@ func execF(c Case, scratch string) (res int, got []int, skipped bool) {
 	case 0:
 		fs.Path = "/dev/null"
 		readBack = func() []byte { return nil }
-	case 1, 2:
-		tmp, err := os.Create(filepath.Join(dir, "std"))
-		if err != nil {
-			panic(err)
+	case 1, 2, 6, 7, 8, 9:
+		// the special paths write to whatever os.Stdout / os.Stderr is at the time of the call: a temp file (healthy), an fd
+		// on /dev/full (every write fails with ENOSPC) or a file that has been closed (every write fails)
+		var tmp *os.File
+		var err error
+		switch c.FKind {
+		case 6, 7:
+			tmp, err = os.OpenFile("/dev/full", os.O_WRONLY, 0)
+			if err != nil {
+				return 0, nil, true
+			}
+		default:
+			tmp, err = os.Create(filepath.Join(dir, "std"))
+			if err != nil {
+				panic(err)
+			}
+			if c.FKind >= 8 {
+				tmp.Close()
+			}
 		}
 		stdMu.Lock()
 		defer stdMu.Unlock()
-		if c.FKind == 1 {
+		if c.FKind == 1 || c.FKind == 6 || c.FKind == 8 {
 			fs.Path = "/dev/stdout"
 			old := os.Stdout
 			os.Stdout = tmp
@@ -955,7 +970,7 @@ func genF(e *emitter) {
 		{{1, []int{}}, {2, []int{21}}},
 		{{1, []int{11}}, {2, []int{}}, {3, []int{31, 32}}},
 	}
-	for kind := 0; kind <= 5; kind++ {
+	for kind := 0; kind <= 9; kind++ {
 		for _, fm := range []int{0, 1, 2, 4} {
 			for _, t := range tables {
 				e.run(Case{Kind: "f", Gen: "exhaustive", FKind: kind, Fmt: fm, Table: t})
